@@ -141,7 +141,33 @@ class Check:
         violations.append((o, path))
       else:
         if o.core:
-          inconclusive.append(o)
+          # undecided core obligation: look for a concrete witness on the real code (replayer with no model); a reproduced violation is reported
+          rep = None
+          for pref, fn in self.replayers.items():
+            if o.name.startswith(pref):
+              rep = fn
+              break
+          reproduced, info = (False, {})
+          if rep is not None and o.meta.get('witness_search', True):
+            try:
+              o.model = o.model or {}
+              reproduced, info = rep(o)
+            except Exception as ex:
+              reproduced, info = False, {'why': 'witness search crashed: %r' % (ex,)}
+          if reproduced and info.get('note', '').find('solver model') < 0:
+            key = o.meta.get('finding_key', o.name)
+            kf = self._known(key)
+            if kf is not None:
+              known_hits.append((key, kf))
+              continue
+            os.makedirs(os.path.join(ROOT, 'replays'), exist_ok=True)
+            path = os.path.join(ROOT, 'replays', '%s-%s.json' % (self.pid, hashlib.md5(o.name.encode()).hexdigest()[:10]))
+            with open(path, 'w') as f:
+              json.dump({'property': self.pid, 'obligation': o.name, 'solver_status': o.status, 'replay': info,
+                         'note': 'the solver left this obligation undecided; the violation was found by the concrete witness search on the real code'}, f, indent=1, default=str)
+            violations.append((o, path))
+          else:
+            inconclusive.append(o)
     seen = set()
     for key, kf in known_hits:
       if key in seen:
